@@ -445,8 +445,20 @@ def parse_rvalue(s):
         except MirError:
             pass
     if s.startswith("{closure@") or s.startswith("{coroutine@"):
-        # closure aggregate: {closure@file:l:c: l:c} or with captures "... { x: move _1 }"?  keep raw
-        return Rvalue("closure", (), extra=s)
+        # closure aggregate: {closure@file:l:c: l:c} optionally followed by captures " { x: move _1 }"
+        close = match_close(s, 0)
+        span = s[:close + 1]
+        rest = s[close + 1:].strip()
+        ops = []
+        names = []
+        if rest.startswith("{") and rest.endswith("}"):
+            for f in split_top(rest[1:-1]):
+                if not f:
+                    continue
+                fm = re.match(r"([A-Za-z_0-9]+): (.*)$", f, re.S)
+                names.append(fm.group(1))
+                ops.append(parse_operand(fm.group(2)))
+        return Rvalue("closure", tuple(ops), extra=(span, tuple(names)))
     if re.match(r"^[A-Za-z_<]", s) and not s.endswith((")", "}")):
         return Rvalue("adt", (), extra=(s, None))      # unit variant / unit struct
     raise MirError("rvalue: " + s)
